@@ -11,7 +11,7 @@ RULE = ("every case of each listed space is executed on nearest_neighbor and sym
         "set is non-empty; distinct = distinct case tuples (digest-sharded)")
 ASSUMPTIONS = ["strings longer than the stated bounds / alphabets larger than 4 letters are covered only through the CDR3 one-edit/two-edit ball families",
                "rapidfuzz is exercised, not trusted: every reported d is compared with the reference"]
-REQUIRED_CLASSES = {"all": ["needs-indel", "has-empty-string", "duplicate-at-distance-0", "shorter-than-k", "homopolymer"]}
+REQUIRED_CLASSES = {"all": ["size-boundary-family", "non-ascii-alphabet", "needs-indel", "has-empty-string", "duplicate-at-distance-0", "shorter-than-k", "homopolymer"]}
 MIN_OUTCOMES = 10
 
 CDR3_SEEDS = ("CASSLGQAYEQYF", "CAVRDSNYQLIW", "CASSPTGGDTQYF", "CAS")
@@ -60,6 +60,15 @@ def spaces(tier):
                 for k in (1, 2, 3):
                     yield ("list", seqs, k)
 
+    def gen_size():
+        for N in (257, 1025, 65560):
+            yield ("sizefam", N, 1)
+        yield ("sizefam", 1025, 2)
+        # multi-byte (non-ASCII) letters: deletion variants must be taken on characters, not bytes
+        for k in (1, 2, 3):
+            yield ("allpairs", "A\u03b1\u00e9", 4, k, "fwd")
+            yield ("allpairs", "\u03b1\u4e2d", 5, k, "rev")
+
     def gen_family():
         for si in range(len(CDR3_SEEDS)):
             for k in (1, 2):
@@ -71,6 +80,7 @@ def spaces(tier):
 
     return [
         Space("all-pairs-of-universe", gen_allpairs, "whole universe U(alphabet,L) as one list, fwd and reversed order: %s x k in 1..4, k=L+1" % uni, per_case=True),
+        Space("size-boundary-and-non-ascii", gen_size, "collections of 257, 1025 and 65560 strings whose positions next to 0, 256, 1024, 65536 and the end hold a clonal family (fillers mutually >= 2 edits apart); universes over multi-byte alphabets {A, alpha, e-acute} and {alpha, CJK}", per_case=True),
         Space("all-lists", gen_lists, "all ordered lists with repetition: Lists(U(AC,2),3) [quick] / Lists(U(AC,2),4)+Lists(U(AC,3),3) [thorough] x k in 1..3"),
         Space("cdr3-edit-ball-families", gen_family, "complete one-edit ball over the 20 amino acids (thorough: + two-edit ball over ACSG) around %d CDR3 seeds, k in 1..2(3)" % len(CDR3_SEEDS), per_case=True),
     ]
@@ -101,6 +111,8 @@ def build(case):
     if kind == "family":
         _, si, radius, alphabet, k = case
         return family(si, radius, alphabet), k
+    if kind == "sizefam":
+        return E.size_family(case[1])[0], case[2]
     raise HarnessError("unknown case %r" % (case,))
 
 
@@ -108,6 +120,10 @@ def check_case(case, acc):
     seqs, k = build(case)
     expected = neighbors_within(seqs, k)
     small = case[0] == "list"
+    if case[0] == "sizefam":
+        acc.cls("size-boundary-family")
+    if case[0] == "allpairs" and not case[1].isascii():
+        acc.cls("non-ascii-alphabet")
     # classes named by the property
     if small:
         if any(s == "" for s in seqs):
@@ -126,7 +142,7 @@ def check_case(case, acc):
         acc.cls("shorter-than-k", sum(1 for s in seqs if len(s) < k))
         acc.cls("homopolymer", sum(1 for s in seqs if len(s) >= 2 and len(set(s)) == 1))
         acc.extra["pairs_decided"] += len(seqs) * (len(seqs) - 1)
-    for name, fn in _engines() + _series_engines():
+    for name, fn in _engines() + (_series_engines() if len(seqs) < 5000 else ()):
         res = acc.call(fn, list(seqs), k)
         bad = diagnose(res, expected)
         if bad is None:
